@@ -216,6 +216,25 @@ def run(ctx):
             dd = observe(inst.dict, rename=st)
             if dd.kind != 'value' or list(dd.val.keys()) != [canonical(f, st) for f in fields]:
                 ctx.violation('rename-laws', 'e2e', k, {'fields': fields, 'style': st, 'dict(rename=)': dd.brief()}, mech=f"e2e-dict-rename:{st}")
+            # a subclass choosing another style (snake included: it is a style like the others, not "no renaming") gets ITS spellings
+            for st2 in STYLES:
+                if st2 == st or 'rename' not in opts:
+                    continue
+                mk2 = observe(lambda: type(f"R{next(_serial)}", (cls,), {'__module__': __name__}, rename=st2))
+                ctx.count('end_to_end_subclasses')
+                if mk2.kind != 'value':
+                    ctx.violation('rename-laws', 'e2e', k, {'fields': fields, 'parent_style': st, 'child_style': st2, 'class_creation': mk2.brief()}, mech=f"e2e-subclass-creation:{st}>{st2}")
+                    continue
+                sub_inst = mk2.val(*range(len(fields)))
+                d2 = observe(sub_inst.into_data)
+                want2 = [canonical(f, st2) for f in fields]
+                if d2.kind != 'value' or list(d2.val.keys()) != want2:
+                    ctx.violation('rename-laws', 'e2e', k, {'fields': fields, 'parent_style': st, 'child_style': st2, 'into_data': d2.brief(), 'canonical': want2},
+                                  mech=f"e2e-subclass-output-names:{st}>{st2}")
+                    continue
+                r2 = observe(mk2.val.from_data, {n: i for i, n in enumerate(want2)})
+                if r2.kind != 'value' or r2.val != sub_inst:
+                    ctx.violation('rename-laws', 'e2e', k, {'fields': fields, 'parent_style': st, 'child_style': st2, 'outcome': r2.brief()}, mech=f"e2e-subclass-input-names:{st}>{st2}")
 
     # ---- thorough: sampled names over the whole alphabet -------------------------------------------------------------------------
     if ctx.tier == 'thorough':
